@@ -223,7 +223,7 @@ impl Property for C26 {
 
     fn runs(&self, tier: Tier) -> u64 {
         match tier {
-            Tier::Quick => 64 * 8,
+            Tier::Quick => 64 * 32,
             Tier::Thorough => 64 * 400,
         }
     }
@@ -319,7 +319,7 @@ impl Property for C27 {
 
     fn runs(&self, tier: Tier) -> u64 {
         match tier {
-            Tier::Quick => 64 * 8,
+            Tier::Quick => 64 * 32,
             Tier::Thorough => 64 * 400,
         }
     }
